@@ -7,4 +7,4 @@ From Pika Require Import Model.CtxSyntax Gen.GenSwapctx Model.Ctx Model.Rebind.
 Extraction Language OCaml.
 Extraction "m.ml" Z.of_N Z.to_N Z.of_nat run_two run_fe swapcontext q_run get_stack_size
   rebind_base construct all_tfields per_task coro_do_rebind coro_at_exit coro_construct
-  created_class created_enum.
+  created_class created_enum mc_created_class mc_created_enum mc_q_run.
